@@ -190,12 +190,15 @@ main(void)
 			int rneed = (int)r0 - (int)t0n_rlo, rpeak = (int)t0n_rhi - (int)r0;
 			__CPROVER_assert(delta >= -8 && delta <= 8 && need >= 0 && need <= 8 && peak >= 0 && peak <= 8, "EFF range data");
 			__CPROVER_assert(rdelta >= -8 && rdelta <= 8 && rneed >= 0 && rneed <= 8 && rpeak >= 0 && rpeak <= 8, "EFF range ret");
-#define E1(k) __CPROVER_assert(delta != (k), "EFF delta " #k); __CPROVER_assert(rdelta != (k), "EFF rdelta " #k);
+#define E1(k) __CPROVER_assert(t0n_co || delta != (k), "EFF delta " #k); __CPROVER_assert(!t0n_co || delta != (k), "EFF codelta " #k); \
+		__CPROVER_assert(rdelta != (k), "EFF rdelta " #k);
 #define E2(k) __CPROVER_assert(need != (k), "EFF need " #k); __CPROVER_assert(peak != (k), "EFF peak " #k); \
 		__CPROVER_assert(rneed != (k), "EFF rneed " #k); __CPROVER_assert(rpeak != (k), "EFF rpeak " #k);
 			E1(-8) E1(-7) E1(-6) E1(-5) E1(-4) E1(-3) E1(-2) E1(-1) E1(0) E1(1) E1(2) E1(3) E1(4) E1(5) E1(6) E1(7) E1(8)
 			E2(0) E2(1) E2(2) E2(3) E2(4) E2(5) E2(6) E2(7) E2(8)
 			__CPROVER_assert(t0n_co == 0, "EFF co");
+			__CPROVER_assert(t0n_co != 0, "EFF noco");
+			__CPROVER_assert(!t0n_co || C05_ERRF(&the_ctx) != 0, "EFF coerr");
 			__CPROVER_assert(0, "EFF completed");
 		}
 	}
